@@ -1,5 +1,6 @@
 import SlipVerif.Gen.SeqKeywords
 import SlipVerif.Gen.SeqLoops
+import SlipVerif.Gen.SeqAlias
 import SlipVerif.Theorems.C14Go
 /-
   C14 — obligations over what `/verif/extract` regenerates from pkg/cl/*.go on every run.
@@ -19,6 +20,12 @@ import SlipVerif.Theorems.C14Go
      uniformly for the list, string and octets branches, and instantiate the refinement theorems of
      Theorems/C14Go.lean with the extracted skeletons: the loops the code contains now compute
      `remove`, `count` and `position` for all in-range bounds, counts and both directions.
+
+  3. `Gen/SeqAlias.lean` (extract/seqalias.go, a may-alias analysis over go/ast): the stores `x[i] = …`,
+     `x.Set(…)`, `copy(x, …)`, `append(x[:k], …)`, `append(x, …)` whose target `x` may be storage of an
+     argument, in the files of the functions that must not modify their arguments (the delete* loops are
+     included because remove* shares them by embedding). The table must be empty: the model's functions are
+     functions of their arguments, and the harness compares the arguments after every call of these functions.
 
   `:test-not` is required only where slip accepts it (the shared parser after fix 0013); its absence
   elsewhere is recorded as known findings (family=… keyword=test-not) and checked by the harness.
@@ -374,5 +381,22 @@ theorem parser_accepts_in_range_bounds : boundAccepts.length = 4 ∧ ∀ a ∈ b
   simp only [boundAccepts, List.mem_cons, List.mem_nil_iff, or_false] at ha
   rcases ha with rfl | rfl | rfl | rfl <;>
     simp only [accepts_setKeysItem_start, accepts_setKeysItem_end, accepts_setKeysIf_start, accepts_setKeysIf_end] <;> omega
+
+/-- no function that must leave its arguments alone (find position count remove substitute
+    remove-duplicates member assoc rassoc search mismatch subseq reverse reduce union intersection
+    set-difference subsetp every some notany notevery map mapcar concatenate — and the delete* loops remove*
+    runs) stores into storage that may belong to an argument -/
+theorem non_destructive_functions_do_not_write_into_their_arguments :
+    SlipVerif.Gen.SeqAlias.argumentWrites = [] := by
+  decide
+
+/-- the analysis saw the functions with the loops (a file that moved away would make the statement above empty) -/
+theorem alias_analysis_covers_the_loops :
+    ∀ f ∈ ["find.go", "find-if.go", "position.go", "position-if.go", "count.go", "count-if.go", "delete.go",
+        "delete-if.go", "delete-duplicates.go", "substitute.go", "substitute-if.go", "member.go", "assoc.go", "rassoc.go",
+        "search.go", "mismatch.go", "subseq.go", "reverse.go", "reduce.go", "union.go", "intersection.go",
+        "set-difference.go", "subsetp.go", "every.go", "some.go", "map.go", "mapcar.go", "concatenate.go"],
+      1 ≤ ((SlipVerif.Gen.SeqAlias.analysed.lookup f).getD 0) := by
+  decide
 
 end SlipVerif.Seq.Gen
